@@ -4799,9 +4799,25 @@ type fillres =
 | FillCancel
 | FillFuel
 
-(** val fill_packet_reader : nat -> n option -> world -> world * fillres **)
+(** val timer_fired : bool -> n option -> world -> bool **)
 
-let rec fill_packet_reader fuel deadline w =
+let timer_fired y deadline w =
+  (&&) y
+    (match deadline with
+     | Some d ->
+       (&&) (N.leb d w.w_now)
+         (let k = fst (fst (next_ev w)) in
+          (&&)
+            ((&&) (negb (N.eqb k (Npos XH))) (negb (N.eqb k (Npos (XO XH)))))
+            ((||) (N.eqb k (Npos (XI XH)))
+              (match fst (avail_split w.w_now w.w_inq) with
+               | [] -> true
+               | _ :: _ -> false)))
+     | None -> false)
+
+(** val fill_go : nat -> bool -> n option -> world -> world * fillres **)
+
+let rec fill_go fuel y deadline w =
   match fuel with
   | O -> (w, FillFuel)
   | S f ->
@@ -4814,20 +4830,45 @@ let rec fill_packet_reader fuel deadline w =
             let w0 = upd_sess w (set_reader s r') in
             if N.eqb win N0
             then (w0, FillOk)
-            else let (w1, r) = io_read win deadline w0 in
-                 (match r with
-                  | RData d ->
-                    (match d with
-                     | [] -> (w1, (FillErr EDisconnected))
-                     | _ :: _ ->
-                       fill_packet_reader f deadline
-                         (upd_sess w1
-                           (set_reader w1.w_sess
-                             (commit w1.w_sess.s_reader d))))
-                  | RFail -> (w1, (FillErr ETransport))
-                  | RTimeout -> (w1, FillTimeout)
-                  | RCancel -> (w1, FillCancel))
+            else if timer_fired y deadline w0
+                 then ((upd_log w0
+                         (app
+                           (s2t (String ((Ascii (false, true, false, false,
+                             true, true, true, false)), (String ((Ascii
+                             (false, false, false, false, false, true, false,
+                             false)), EmptyString)))))
+                           (app (show_N win)
+                             (s2t (String ((Ascii (false, false, false,
+                               false, false, true, false, false)), (String
+                               ((Ascii (false, false, true, false, false,
+                               true, true, false)), (String ((Ascii (false,
+                               true, false, false, true, true, true, false)),
+                               (String ((Ascii (true, true, true, true,
+                               false, true, true, false)), (String ((Ascii
+                               (false, false, false, false, true, true, true,
+                               false)), EmptyString)))))))))))))),
+                        FillTimeout)
+                 else let (w1, r) = io_read win deadline w0 in
+                      (match r with
+                       | RData d ->
+                         (match d with
+                          | [] -> (w1, (FillErr EDisconnected))
+                          | _ :: _ ->
+                            fill_go f
+                              ((||) y (negb (N.eqb w1.w_waits w0.w_waits)))
+                              deadline
+                              (upd_sess w1
+                                (set_reader w1.w_sess
+                                  (commit w1.w_sess.s_reader d))))
+                       | RFail -> (w1, (FillErr ETransport))
+                       | RTimeout -> (w1, FillTimeout)
+                       | RCancel -> (w1, FillCancel))
           | None -> ((upd_sess w (set_reader s r')), (FillErr EInvalidPacket)))
+
+(** val fill_packet_reader : nat -> n option -> world -> world * fillres **)
+
+let fill_packet_reader fuel deadline w =
+  fill_go fuel false deadline w
 
 (** val wait_for_progress : nat -> world -> world * progress outcome **)
 
